@@ -6,7 +6,7 @@
 // the harness sources under /verif/sim to /repo/internal/verifsim.
 //
 // Edits:
-//   - sync.Mutex / sync.RWMutex          -> rt.Mutex / rt.RWMutex      (all instrumented files)
+//   - sync.Mutex / sync.RWMutex / sync.Pool -> rt.Mutex / rt.RWMutex / rt.Pool (all instrumented files)
 //   - os.WriteFile/ReadFile/OpenFile/Create/Open/Remove/Rename, os.File -> rt.* (cdr/cdrFile, internal/cgf, internal/sbi/processor)
 //   - rt.Yield(<site>) before statements                               (yield packages, when -yields)
 //   - package-level variables initialised with a channel, timer, ticker, condition variable or
@@ -173,7 +173,7 @@ func main() {
 				return true
 			}
 			if syncName != "" && syncName != "_" && syncName != "." && id.Name == syncName &&
-				(se.Sel.Name == "Mutex" || se.Sel.Name == "RWMutex") {
+				(se.Sel.Name == "Mutex" || se.Sel.Name == "RWMutex" || se.Sel.Name == "Pool") {
 				edits = append(edits, edit{off(se.Pos()), off(se.End()), "rt." + se.Sel.Name, 0})
 				nLock++
 			}
